@@ -149,6 +149,19 @@ def c09(tier, rng, fam='C09'):
                     b.step('send', c=3, pay='more')
                     b.step('recv', c=3)
                 out.append(b.q().done())
+    # the failure is reported by the transport as io.EOF (net.Pipe, TCP): still a failure for every call
+    for kind in ('bidi', 'ss', 'unary'):
+        b = B(fam, '%s read failure reported as io.EOF' % kind, ser=True)
+        if kind == 'unary':
+            b.step('ucall', c=1, pay='q', hp=[])
+        else:
+            b.step('sopen', c=1, kind=kind, hp=[dict(o='recv'), dict(o='send', pay='r0'), dict(o='ctxwait'), ret(code=1, msg='gone')])
+            b.step('send', c=1, pay='x')
+            b.step('recv', c=1, n=3)
+        b.step('fault', what='creadeof')
+        b.q()
+        b.step('ucall', c=20, pay='after', to=H, hp=[ret(pay='x')])
+        out.append(b.q().done())
     # a call parked between the failure check and its registration while the failure lands
     reps = 2 if tier == 'quick' else 8
     for what in ('ucall', 'sopen'):
@@ -569,6 +582,10 @@ def c05(tier, rng, fam='C05'):
                     e = env(i, m=METH['bidi'], b='s%d.m%d' % (i, j), src='cliX', dst='srv')
                 b.step('inj', dir='c2s', env=e)
             out.append(b.q().done())
+    # (b2) calls sharing "common" metadata objects: no call sees another call's headers or trailers
+    for sc_ in c04('quick', rng, fam=fam):
+        if 'four calls sharing' in sc_['tag']:
+            out.append(sc_)
     # (c) many goroutines starting calls at once: ids pairwise distinct, replies not mixed up
     for k, reps in ([(16, 2), (64, 2)] if tier == 'quick' else [(8, 4), (16, 4), (32, 4), (64, 8)]):
         for r_ in range(reps):
@@ -797,6 +814,30 @@ def c04(tier, rng, fam='C04'):
         for path in up:
             b = B(fam, 'unary ops %s values#%d' % (' '.join('%s%s' % (o, i or '') for o, i in path), vi), ser=True)
             b.step('ucall', c=1, pay='q', md=rnd_md(rng, 2), hp=hops(path, vs)[:-1] + [dict(hops(path, vs)[-1], pay='rep')])
+            out.append(b.q().done())
+    # several calls in one scenario whose handlers pass the same "common" metadata first and per-call values second:
+    # nothing of one call may show up in another (the harness hands the library ONE object per distinct set)
+    for kind in ('bidi', 'ss', 'cs', 'unary'):
+        for way in ('sendhdr', 'firstmsg', 'trailer'):
+            b = B(fam, '%s four calls sharing common header/trailer objects, headers via %s' % (kind, way), ser=True)
+            common_h, common_t = [['common', 'h'], ['Svc-Id', 'x1']], [['common-t', 't']]
+            for c in range(1, 5):
+                own_h, own_t = [['call', 'c%d' % c], ['common', 'own%d' % c]], [['call-done', 'c%d' % c]]
+                hp = [dict(o='sethdr', md=common_h)]
+                if kind == 'unary':
+                    hp += [dict(o='sethdr', md=own_h), dict(o='settrl', md=common_t), dict(o='settrl', md=own_t), ret(pay='rep%d' % c)]
+                    b.step('ucall', c=c, pay='q%d' % c, hp=hp)
+                else:
+                    hp = [dict(o='drain')] + hp
+                    if way == 'sendhdr':
+                        hp += [dict(o='sendhdr', md=own_h), dict(o='send', pay='m')]
+                    elif way == 'firstmsg':
+                        hp += [dict(o='sethdr', md=own_h), dict(o='send', pay='m')]
+                    else:
+                        hp += [dict(o='sethdr', md=own_h)]
+                    hp += [dict(o='settrl', md=common_t), dict(o='settrl', md=own_t), ret()]
+                    b.step('sopen', c=c, kind=kind, hp=hp)
+                    b.step('send', c=c, pay='x').step('close', c=c).step('hdr', c=c).step('recv', c=c, n=2).step('trl', c=c)
             out.append(b.q().done())
     # random metadata sets on every kind: request metadata, headers in the three ways, trailers
     n = 60 if tier == 'quick' else 1250
